@@ -66,9 +66,24 @@ def L(x):
     return ("L", x)
 
 
+NT_FIELDS = {}      # named-tuple type name -> field names (all fields are numbers); filled from the plug-in configuration
+
+
+def NT(name):
+    return ("NT", name)
+
+
+def O(x):
+    return ("O", x)
+
+
 def shape_lean(s):
     if s == N:
         return "Num"
+    if s[0] == "NT":
+        return "(" + " × ".join("Num" for _ in NT_FIELDS[s[1]]) + ")"
+    if s[0] == "O":
+        return "(Option " + shape_lean(s[1]) + ")"
     if s == B:
         return "Bool"
     if s == U:
@@ -118,6 +133,8 @@ def pp_term(t, ind):
         return [f"{sp}pure {t[1]}"]
     if k == "err":
         return [f"{sp}Except.error {t[1]}"]
+    if k == "matchopt":
+        return [f"{sp}match {t[1]} with", f"{sp}| none =>"] + pp_term(t[2], ind + 2) + [f"{sp}| some {t[3]} =>"] + pp_term(t[4], ind + 2)
     raise AssertionError(k)
 
 
@@ -144,6 +161,8 @@ def term_size(t):
         return 1 + term_size(t[2]) + term_size(t[3])
     if k == "if":
         return 1 + term_size(t[2]) + term_size(t[3])
+    if k == "matchopt":
+        return 1 + term_size(t[2]) + term_size(t[4])
     if k == "for":
         return 1 + term_size(t[5])
     return 1
@@ -165,6 +184,10 @@ class FnInfo:
         self.text = None
         self.doc = ""
         self.extra_params = []          # descriptions of parameters that are not Python parameters
+        self.py_params = []             # Python parameter names in order (records included)
+        self.record_names = set()       # Python parameters that are records
+        self.rec_paths = []             # sorted (dotted attribute path, lean parameter name)
+        self.n_opaque = 0
 
     def result_shape(self):
         """shape of the Lean result: Python return value, then the mutated list parameters"""
@@ -398,6 +421,9 @@ class FnTranslator:
         self.record_attrs = {}        # dotted path -> lean name
         self.opaque = dict(self.cfg.get("opaque", {}))
         self.opaque_targets = dict(self.cfg.get("opaque_targets", {}))
+        for nm, fields in module.config.get("__tuples__", {}).items():
+            NT_FIELDS[nm] = list(fields)
+        self.optional_ret = False
         self.opaque_params = []       # (lean name, shape, description)
         self.mut_params = []          # python names of list params that are mutated
 
@@ -441,7 +467,7 @@ class FnTranslator:
             pn = arg.arg
             if pn in self.records:
                 # a record parameter: only its attribute paths are visible, each as a Num parameter
-                env.d[pn] = ("<record>", ("R", pn))
+                env.d[pn] = ("<record>", ("R", pn))   # ("R", dotted path so far)
                 continue
             sh = shapes.get(pn) or self.shape_of_annotation(arg.annotation)
             ln = self.param_name(pn)
@@ -457,6 +483,9 @@ class FnTranslator:
         body = list(node.body)
         if body and isinstance(body[0], ast.Expr) and isinstance(body[0].value, ast.Constant) and isinstance(body[0].value.value, str):
             body = body[1:]
+        rets = [n for n in ast.walk(ast.Module(body=body, type_ignores=[])) if isinstance(n, ast.Return)]
+        nones = [r for r in rets if r.value is None or (isinstance(r.value, ast.Constant) and r.value.value is None)]
+        self.optional_ret = bool(nones) and len(nones) < len(rets)
         term = self.block(body, 0, env, self.end_cont)
         if term_size(term) > MAX_TERM:
             self.fail(node, f"translated term too large ({term_size(term)} nodes): join points are duplicated")
@@ -467,6 +496,11 @@ class FnTranslator:
         rec = sorted(self.record_attrs.items())
         info.params = params + [(p, ln, N) for p, ln in rec] + [(d, ln, sh) for ln, sh, d in self.opaque_params]
         info.extra_params = [f"{ln} = `{p}`" for p, ln in rec] + [f"{ln} = {d}" for ln, sh, d in self.opaque_params]
+        info.py_params = [a_.arg for a_ in node.args.args]
+        info.record_names = set(self.records) & set(info.py_params)
+        info.rec_paths = rec
+        info.n_opaque = len(self.opaque_params)
+        info.plain = params
         info.mutated = [i for i, (pn, _l, _s) in enumerate(params) if pn in self.mut_params]
         sig = " ".join(f"({ln} : {shape_lean(sh)})" for _pn, ln, sh in info.params)
         res = shape_lean(info.result_shape())
@@ -526,6 +560,14 @@ class FnTranslator:
 
     def ret_term(self, node, val, env):
         _k, expr, sh = val
+        if self.optional_ret:
+            if sh == U:
+                if self.ret_shape is None:
+                    self.pending_none = True
+                    return ("pure", "none")
+                return ("pure", "none")
+            sh = O(sh)
+            expr = f"(some {expr})"
         if self.ret_shape is None:
             self.ret_shape = sh
         elif self.ret_shape != sh:
@@ -646,6 +688,19 @@ class FnTranslator:
             self.opaque_params.append((ln, sh, "`" + ast.unparse(st).replace("\n", " ") + "`"))
             env.d[tg.id] = (ln, sh)
             return rest(env)
+        # opaque record: `name = <anything>` where the configuration declares `name` a record computed outside
+        # the subset (a method of `arch`, ...): its attributes that are read become parameters
+        if len(targets) == 1 and isinstance(targets[0], ast.Name) and targets[0].id in self.cfg.get("opaque_records", ()):
+            if st not in self.node.body:
+                self.fail(st, "opaque record assignment outside the top level of the function body")
+            env.d[targets[0].id] = ("<record>", ("R", targets[0].id))
+            return rest(env)
+        # alias of a record-valued path: `size = area.size()` where `size.width` is read later
+        if len(targets) == 1 and isinstance(targets[0], ast.Name):
+            rp = self.record_path(value, env)
+            if rp is not None and self.used_as_record(targets[0].id):
+                env.d[targets[0].id] = ("<record>", ("R", rp))
+                return rest(env)
         # subscript store  l[i] = v
         if len(targets) == 1 and isinstance(targets[0], ast.Subscript):
             return self.subscript_store(st, targets[0], value, env, rest)
@@ -786,7 +841,30 @@ class FnTranslator:
                 out.append(nm)
         return out
 
+    def opt_test(self, test, env):
+        """`x is None` / `x is not None` / `not x`-free forms on a local of Optional shape -> (name, is_none)"""
+        if isinstance(test, ast.Compare) and len(test.ops) == 1 and isinstance(test.left, ast.Name) \
+                and isinstance(test.comparators[0], ast.Constant) and test.comparators[0].value is None \
+                and isinstance(test.ops[0], (ast.Is, ast.IsNot)):
+            b = env.d.get(test.left.id)
+            if b is not None and b[1][0] == "O":
+                return test.left.id, isinstance(test.ops[0], ast.Is)
+        return None
+
     def if_stmt(self, st, env, rest):
+        ot = self.opt_test(st.test, env)
+        if ot is not None:
+            nm, is_none = ot
+            ln, sh = env.d[nm]
+            e_none = env.copy()
+            e_none.d[nm] = None                 # reading it there would read None: not a value of the subset
+            e_some = env.copy()
+            ln2 = self.fresh(nm)
+            e_some.d[nm] = (ln2, sh[1])
+            b_none, b_some = (st.body, st.orelse) if is_none else (st.orelse, st.body)
+            t_none = self.block(b_none, 0, e_none, rest)
+            t_some = self.block(b_some, 0, e_some, rest)
+            return ("matchopt", ln, t_none, ln2, t_some)
         pre, c = self.cond(st.test, env)
         if self.has_return(st.body) or self.has_return(st.orelse) or self.always_exits(st.body) or self.always_exits(st.orelse):
             # tail form: the continuation goes into the branches
@@ -842,6 +920,8 @@ class FnTranslator:
             return (k, t[1], self.subst_join(t[2], val))
         if k == "if":
             return (k, t[1], self.subst_join(t[2], val), self.subst_join(t[3], val))
+        if k == "matchopt":
+            return (k, t[1], self.subst_join(t[2], val), t[3], self.subst_join(t[4], val))
         return t
 
     def for_stmt(self, st, env, rest):
@@ -1074,18 +1154,50 @@ class FnTranslator:
             if t and node.attr in ("min", "max", "bits"):
                 return [], ("lit", numlit(NP_INFO[t][("min", "max", "bits").index(node.attr)]), N)
             self.fail(node, "unsupported np.iinfo use")
-        # record parameter attribute path
+        # record parameter attribute path (zero-argument method calls are path segments: `area.size().width`)
+        dotted = self.record_path(node, env)
+        if dotted is not None:
+            if dotted not in self.record_attrs:
+                self.record_attrs[dotted] = self.param_name(dotted.replace(".", "_").replace("()", ""))
+            return [], ("atom", self.record_attrs[dotted], N)
+        # field of a named tuple value
+        if isinstance(node.value, (ast.Name, ast.Subscript, ast.Call, ast.Attribute)):
+            try:
+                pre, v = self.expr(node.value, env)
+            except Untranslatable:
+                pre, v = None, None
+            if v is not None and v[2][0] == "NT" and node.attr in NT_FIELDS[v[2][1]]:
+                return pre, self.nt_proj(v, NT_FIELDS[v[2][1]].index(node.attr))
+        self.fail(node, f"attribute access `{ast.unparse(node)}`")
+
+    def nt_proj(self, v, i):
+        n = len(NT_FIELDS[v[2][1]])
+        base = v[1] if " " not in v[1] else "(" + v[1] + ")"
+        proj = base + "".join(".2" for _ in range(i)) + (".1" if i < n - 1 else "")
+        return ("pure", proj, N)
+
+    def record_path(self, node, env):
+        """dotted path of an attribute / zero-argument-method chain rooted at a record, else None"""
         path = []
         n = node
-        while isinstance(n, ast.Attribute):
-            path.append(n.attr)
-            n = n.value
-        if isinstance(n, ast.Name) and n.id in env.d and env.d[n.id] is not None and env.d[n.id][1][0] == "R":
-            dotted = ".".join([n.id] + path[::-1])
-            if dotted not in self.record_attrs:
-                self.record_attrs[dotted] = self.param_name(dotted.replace(".", "_"))
-            return [], ("atom", self.record_attrs[dotted], N)
-        self.fail(node, f"attribute access `{ast.unparse(node)}`")
+        while True:
+            if isinstance(n, ast.Attribute):
+                path.append(n.attr)
+                n = n.value
+            elif isinstance(n, ast.Call) and not n.args and not n.keywords and isinstance(n.func, ast.Attribute):
+                path.append(n.func.attr + "()")
+                n = n.func.value
+            else:
+                break
+        if isinstance(n, ast.Name) and n.id in env.d and env.d[n.id] is not None and env.d[n.id][1][0] == "R" and path:
+            return ".".join([env.d[n.id][1][1]] + path[::-1])
+        return None
+
+    def used_as_record(self, name):
+        for n in ast.walk(self.node):
+            if isinstance(n, ast.Attribute) and isinstance(n.value, ast.Name) and n.value.id == name:
+                return True
+        return False
 
     def np_type(self, node):
         s = ast.unparse(node)
@@ -1139,6 +1251,17 @@ class FnTranslator:
                 self.fail(node, "tuple index out of range")
             proj = v[1] + "".join(".2" for _ in range(i)) + (".1" if i < n - 1 else "")
             return pre, ("pure", proj if " " not in v[1] else "(" + v[1] + ")" + proj[len(v[1]):], v[2][1 + i])
+        if v[2][0] == "NT":
+            try:
+                i = self.m._cv(node.slice, "")
+            except Untranslatable:
+                self.fail(node, "named-tuple index that is not a constant")
+            n = len(NT_FIELDS[v[2][1]])
+            if i < 0:
+                i += n
+            if not 0 <= i < n:
+                self.fail(node, "named-tuple index out of range")
+            return pre, self.nt_proj(v, i)
         if v[2][0] == "L":
             p, idx = self.expr(node.slice, env)
             if idx[2] != N:
@@ -1170,6 +1293,29 @@ class FnTranslator:
             x = self.as_num(node.args[0], a)
             r = self.tmp()
             return pre + [("let", r, f"Num.cast Ty.{t} {x}", None)], ("atom", r, N)
+        if isinstance(node.func, ast.Name) and node.func.id in NT_FIELDS and node.func.id not in env.d:
+            fields = NT_FIELDS[node.func.id]
+            given = {}
+            pre = []
+            if any(isinstance(a, ast.Starred) for a in node.args) or len(node.args) > len(fields):
+                self.fail(node, "named-tuple constructor arguments")
+            for fname, a in zip(fields, node.args):
+                given[fname] = a
+            for kw in node.keywords:
+                if kw.arg not in fields or kw.arg in given:
+                    self.fail(node, f"named-tuple constructor keyword `{kw.arg}`")
+                given[kw.arg] = kw.value
+            if set(given) != set(fields):
+                self.fail(node, "named-tuple constructor with missing fields")
+            # Python evaluates positional then keyword arguments in source order
+            order = list(node.args) + [kw.value for kw in node.keywords]
+            vals = {}
+            for a in order:
+                p, v = self.expr(a, env)
+                pre += p
+                vals[id(a)] = self.as_num(a, v)
+            comps = [vals[id(given[f])] for f in fields]
+            return pre, ("pure", "(" + ", ".join(comps) + ")", NT(node.func.id))
         if isinstance(node.func, ast.Name) and node.func.id not in env.d:
             f = node.func.id
             if f == "int":
@@ -1274,26 +1420,46 @@ class FnTranslator:
             info = mod.translate(f)
         except Untranslatable as e:
             self.fail(node, f"call of `{f}`, which is outside the subset [{e}]")
-        if info.extra_params:
-            self.fail(node, f"call of `{f}`, which has record / opaque parameters")
+        if info.n_opaque:
+            self.fail(node, f"call of `{f}`, which has opaque parameters")
         if mod is not self.m:
             self.m.deps.add(mod.lean_module)
         if node.keywords:
             self.fail(node, "keyword arguments")
+        if len(node.args) > len(info.py_params):
+            self.fail(node, f"too many arguments in call of `{f}`")
         pre, vals = [], []
-        for i, (pn, _ln, sh) in enumerate(info.params):
-            if i < len(node.args):
-                p, v = self.expr(node.args[i], env)
+        rec_arg = {}          # callee record parameter -> caller's record path
+        shapes = {pn: sh for pn, _ln, sh in info.plain}
+        for i, pn in enumerate(info.py_params):
+            a = node.args[i] if i < len(node.args) else None
+            if pn in info.record_names:
+                rp = None
+                if isinstance(a, ast.Name) and env.d.get(a.id) is not None and env.d[a.id][1][0] == "R":
+                    rp = env.d[a.id][1][1]
+                elif a is not None:
+                    rp = self.record_path(a, env)
+                if rp is None:
+                    self.fail(node, f"argument `{pn}` of `{f}` must be a record of the caller")
+                rec_arg[pn] = rp
+                continue
+            if a is not None:
+                p, v = self.expr(a, env)
             elif pn in info.defaults:
                 p, v = FnTranslator(mod, mod.funcs[f], None, None).expr(info.defaults[pn], Env())
             else:
                 self.fail(node, f"missing argument `{pn}` in call of `{f}`")
-            if v[2] != sh:
-                self.fail(node, f"argument `{pn}` of `{f}`: {shape_str(v[2])} given, {shape_str(sh)} expected")
+            if v[2] != shapes[pn]:
+                self.fail(node, f"argument `{pn}` of `{f}`: {shape_str(v[2])} given, {shape_str(shapes[pn])} expected")
             pre += p
             vals.append(v)
-        if len(node.args) > len(info.params):
-            self.fail(node, f"too many arguments in call of `{f}`")
+        # the callee's record attribute parameters are the caller's attributes of the record passed
+        for dotted, _ln in info.rec_paths:
+            root, rest_ = dotted.split(".", 1)
+            mine = rec_arg[root] + "." + rest_
+            if mine not in self.record_attrs:
+                self.record_attrs[mine] = self.param_name(mine.replace(".", "_").replace("()", ""))
+            vals.append(("atom", self.record_attrs[mine], N))
         callee = info.lean_name if mod is self.m else info.qual
         r = self.tmp()
         if not info.mutated:
